@@ -509,8 +509,10 @@ def mon_c06(sn, faulty):
                         bad.append("pod %s created before its claim %s was created" % (c["name"], w))
                     elif x.get("err"):
                         bad.append("pod %s created although the creation of claim %s failed (%s)" % (c["name"], w, x["err"]))
-        if c["res"] == "pods" and c["verb"] == "create" and c.get("rev"):
+        resubmitted = any(q["name"] == c.get("name") and q["phase"] == "" for q in sn.sc["cache"]["pods"])
+        if c["res"] == "pods" and c["verb"] == "create" and c.get("rev") and not resubmitted:
             # the revision label names the revision the pod was built from
+            # (a cached pod without a phase is re-submitted as it is, with whatever label it carries: not built here)
             known = {r["name"]: r["tmpl"] for r in sn.sc["api"]["revs"]}
             for x in calls[:i]:
                 if x["res"] == "controllerrevisions" and x["verb"] == "create" and not x.get("err"):
